@@ -249,8 +249,8 @@ def handle (j : Json) : Except String Json := do
     let args ← (← getArr j "ctor").mapM parseAssign
     let evs ← (← getArr j "events").mapM parseAssign
     let fails := (j.getObjVal? "initFails").toOption == some (.bool true)
-    let init : (Lazy.Attr → Option Nat) → Option (List (Option Nat)) := fun vals =>
-      if fails then none else some (Lazy.lazyAttrs.map vals)
+    let init : List (Option Nat) → Option (List (Option Nat)) := fun vals =>
+      if fails then none else some (vals.take 3)
     match Lazy.construct init args with
     | none => pure (Json.mkObj [("construct", raisesJ)])
     | some m0 =>
